@@ -14,6 +14,7 @@ CONSTANTS
   DevAbsTiling = FALSE
   DevChanUnits = FALSE
   DevReopenFull = FALSE
+  DevExtendShort = FALSE
 INVARIANT TypeOK
 INVARIANT U1
 INVARIANT U2
